@@ -21,10 +21,11 @@ import (
 
 // Frame is one injected frame, stored as the exact bytes that were sent.
 type Frame struct {
-	P     uint16 `json:"p"`     // EtherType
-	B     string `json:"b"`     // hex of the network-layer packet
-	Chunk int    `json:"chunk"` // netsim.ChunkLikeLink mode
-	Rel   bool   `json:"rel"`   // TCP seq/ack are relative to the live connection (patched at run time)
+	P     uint16 `json:"p"`             // EtherType
+	B     string `json:"b"`             // hex of the network-layer packet
+	Chunk int    `json:"chunk"`         // netsim.ChunkLikeLink mode
+	Rel   bool   `json:"rel"`           // TCP seq/ack are relative to the live connection (patched at run time)
+	Rep   int    `json:"rep,omitempty"` // the frame is injected 1+Rep times back to back (floods)
 }
 
 type Case struct {
@@ -115,7 +116,9 @@ func (w *World) Inject(f Frame) {
 		w.Env.Tap.InjectViews(tcpip.NetworkProtocolNumber(f.P), "", [][]byte{})
 		return
 	}
-	w.Env.Tap.InjectViews(tcpip.NetworkProtocolNumber(f.P), "", netsim.ChunkLikeLink(b, f.Chunk))
+	for i := 0; i <= f.Rep && i <= 64; i++ {
+		w.Env.Tap.InjectViews(tcpip.NetworkProtocolNumber(f.P), "", netsim.ChunkLikeLink(b, f.Chunk))
+	}
 }
 
 // Probe checks that the stack still serves: echo, a fresh TCP connection, a
